@@ -21,6 +21,9 @@ namespace TasGrid{ namespace VerifHooks{
     inline std::atomic<EventSink>& eventSink(){ static std::atomic<EventSink> s(nullptr); return s; }
     inline std::atomic<SchedSink>& schedSink(){ static std::atomic<SchedSink> s(nullptr); return s; }
 
+    //! constructSurrogate loads completed samples one by one while the grid has fewer loaded points than this (1000 in the library)
+    inline std::atomic<int>& eagerLoadThreshold(){ static std::atomic<int> v(1000); return v; }
+
     inline void emit(const char *event, std::initializer_list<long long> args){
         EventSink s = eventSink().load();
         if (s != nullptr) s(event, args.begin(), (int) args.size());
@@ -33,9 +36,11 @@ namespace TasGrid{ namespace VerifHooks{
 
 #define TSG_VERIF_EVENT(...) ::TasGrid::VerifHooks::emit(__VA_ARGS__)
 #define TSG_VERIF_SCHED(where) ::TasGrid::VerifHooks::sched(where)
+#define TSG_VERIF_EAGER_LOAD (::TasGrid::VerifHooks::eagerLoadThreshold().load())
 #else
 #define TSG_VERIF_EVENT(...)
 #define TSG_VERIF_SCHED(where)
+#define TSG_VERIF_EAGER_LOAD 1000
 #endif
 
 #endif
